@@ -297,4 +297,4 @@ def run_tables(chk, prog, config="default"):
                 chk.inst("slot-table:" + op, "%s@%d" % (label, i), not probs, detail="; ".join(sorted(set(probs))[:3]))
     chk.extra["slot_table_rows"] = nrows
     chk.extra["slot_table_states"] = len(states)
-    chk.floor("slot-table-rows", nrows, 500)
+    chk.floor("slot-table-rows", nrows, 200)
